@@ -589,7 +589,7 @@ def step (line : String) : String :=
     | ["zc_parse", s] => (parseX s).map fun _ => "parse=0 fe=0"
     | ["zc_tok", s] => (parseX s).map fun s =>
       let t := Token.new s
-      s!"new={boolStr t.fresh} dec_b={boolStr (Token.decoded t.bytes).fresh} dec_o={boolStr (Token.decoded t.bytes).fresh}"
+      s!"new={boolStr t.fresh} dec_b={boolStr (Token.decoded t.bytes).fresh} dec_o={boolStr (Token.decoded t.bytes).fresh} new_o={boolStr t.fresh}"
     | _ => none
   match r with
   | some s => s
